@@ -427,8 +427,44 @@ func runMerger(jc *JobCtx, masks []int, depth int) {
 	rep.outcome("merger-ok")
 }
 
+// runBuilderTall: levels grow by at most one per added node, so reaching the maximum level needs a run of
+// 33 nodes with increasing level requests; two segments so that the top levels cross a segment boundary.
+func runBuilderTall(jc *JobCtx, mm bool) {
+	rep := jc.Rep
+	var p string
+	func() {
+		defer func() {
+			if r := recover(); r != nil {
+				p = fmt.Sprintf("panic: %v", r)
+			}
+		}()
+		n := skiplist.MaxLevel + 3
+		var levels []int
+		for i := 0; i < n; i++ {
+			l := i + 1
+			if l > skiplist.MaxLevel {
+				l = skiplist.MaxLevel
+			}
+			levels = append(levels, l)
+		}
+		p = buildAndCheck(bShape{n - 2, 2}, levels, mm, false, []bCont{{'I', 15}, {'D', 340}, {'L', 350}})
+	}()
+	rep.Executions++
+	rep.Transitions += int64(skiplist.MaxLevel + 6)
+	rep.Nodes++
+	rep.Nontrivial++
+	if p != "" {
+		rep.violate(Viol{Kind: "builder", Msg: "segments with nodes of every height up to MaxLevel: " + p, Site: "builder.go", Job: jc.Job.Name, Choices: []int{0}})
+	}
+	rep.Bound = "heights 1..MaxLevel"
+	rep.sample("two segments holding nodes of every height 1..32 (levels grow by one per added node)")
+	rep.outcome("builder-ok")
+}
+
 func c18Jobs(tier string) []Job {
 	var jobs []Job
+	jobs = append(jobs, Job{Name: "C18/builder/go/tall", Run: func(jc *JobCtx) { runBuilderTall(jc, false) }})
+	jobs = append(jobs, Job{Name: "C18/builder/mm/tall", Run: func(jc *JobCtx) { runBuilderTall(jc, true) }})
 	contLen := 1
 	if tier == "thorough" {
 		contLen = 2
